@@ -16,7 +16,7 @@ ID = "C15"
 RULE = (
     "Query ASTs from a grammar over ds/Select/Where/SelectMany/First/Count/method calls/tuples/dicts/arithmetic with "
     "0-8 MetaData(src, dict) wrappers placed on the source chain, adjacent, nested in each other's source, inside "
-    "lambda bodies and in operator/function arguments; dict empty or carrying a unique id (1-3 keys, str/int/float/"
+    "lambda bodies, in default values of lambda parameters (positional and keyword-only), in operator/function arguments incl. keyword, starred and callee positions, conditionals, subscripts, slices and unary/boolean operands, next to look-alike method calls obj.MetaData(x, {}); dict empty or carrying a unique id (1-3 keys, str/int/float/"
     "bool/list values). Non-trivial = >=2 wrappers with >=1 empty and >=1 inside a lambda. Distinct by source text."
 )
 ASSUMPTIONS = [
@@ -74,6 +74,13 @@ def _seq(draw, depth, vars_, counter, root):
             return f"SelectMany({src}, lambda {v}: {draw(_seq(depth - 1, vars_ + [v], counter, False))})"
         if k == 3:
             return f"({src}).Select(lambda {v}: {draw(_val(depth - 1, vars_ + [v], counter))})"
+        if draw(st.integers(0, 4)) == 0:
+            # a lambda with a second, defaulted parameter (positional or keyword-only): the default value is reached through the
+            # lambda's `arguments` node, not through an expression field
+            w = draw(st.sampled_from(["w", "d"]))
+            star = draw(st.sampled_from(["", "*, "]))
+            dflt = draw(_val(depth - 1, vars_, counter)) if draw(st.booleans()) else draw(_seq(depth - 1, vars_, counter, not vars_))
+            return f"Select({src}, lambda {v}, {star}{w}={dflt}: ({draw(_val(depth - 1, vars_ + [v], counter))}, {w}))"
         return f"Where({src}, lambda {v}: {draw(_val(depth - 1, vars_ + [v], counter))} > 0 and {v}.ok)"
 
     return draw(_wrap(build, counter, depth))
@@ -85,7 +92,18 @@ def _val(draw, depth, vars_, counter):
         v = draw(st.sampled_from(vars_)) if vars_ else "q"
         if depth <= 0 or draw(st.integers(0, 9)) < 2:
             return draw(st.sampled_from([f"{v}.pt", f"{v}.eta()", "1", f"{v}"]))
-        k = draw(st.integers(0, 6))
+        k = draw(st.integers(0, 10))
+        if k == 7:
+            return f"({draw(_val(depth - 1, vars_, counter))} if {draw(_val(depth - 1, vars_, counter))} > 0 else {draw(_val(depth - 1, vars_, counter))})"
+        if k == 8:
+            return draw(st.sampled_from(["{A}[{B}]", "{A}[{B}:]", "-{A} < {B}", "func(*{A}, **{B})", "pick({A})({B})", "(not {A}) or {B}"])) \
+                .replace("{A}", draw(_val(depth - 1, vars_, counter))).replace("{B}", draw(_val(depth - 1, vars_, counter)))
+        if k == 9:
+            w = draw(st.sampled_from(["w", "d"]))
+            return f"(lambda {w}, {draw(st.sampled_from(['', '*, ']))}z={draw(_val(depth - 1, vars_, counter))}: {w} + z)({draw(_val(depth - 1, vars_, counter))})"
+        if k == 10:
+            # a look-alike that is not a wrapper: the METHOD MetaData of some object (must stay as it is)
+            return f"obj.MetaData({draw(_val(depth - 1, vars_, counter))}, {{}})"
         if k == 0:
             return f"Count({draw(_seq(depth - 1, vars_, counter, False))})" if vars_ else "2"
         if k == 1:
